@@ -1,6 +1,7 @@
 package main
 
 import (
+	"sync/atomic"
 	"bytes"
 	"context"
 	"fmt"
@@ -643,6 +644,7 @@ func (d *Discharger) dischargeSplit(o *Obligation) {
 	results := make([]sub, len(combos))
 	var wg sync.WaitGroup
 	sem := make(chan struct{}, 6)
+	var aborted int32 // a case that does not discharge decides the obligation: the remaining cases are not attempted
 	for ci, combo := range combos {
 		ci, combo := ci, combo
 		wg.Add(1)
@@ -650,6 +652,10 @@ func (d *Discharger) dischargeSplit(o *Obligation) {
 			defer wg.Done()
 			sem <- struct{}{}
 			defer func() { <-sem }()
+			if atomic.LoadInt32(&aborted) != 0 {
+				results[ci] = sub{ci, "", solveResult{status: "skipped"}}
+				return
+			}
 			termMu.Lock()
 			h := append([]*Term{}, o.Hyps...)
 			g := o.Goal
@@ -693,11 +699,24 @@ func (d *Discharger) dischargeSplit(o *Obligation) {
 			termMu.Unlock()
 			tag := strings.Join(tags, ",")
 			rr := d.run(fmt.Sprintf("%s.case_%s", o.Name, sanitizeFile(tag)), h, g, o.Inputs, d.timeout, o.Reveal)
+			if rr.status != "unsat" {
+				atomic.StoreInt32(&aborted, 1)
+			}
 			results[ci] = sub{ci, tag, rr}
 		}()
 	}
 	wg.Wait()
 	solver := map[string]bool{}
+	// report the failing case (a skipped one is only a consequence of it)
+	for _, s := range results {
+		if s.r.status != "unsat" && s.r.status != "skipped" {
+			total += s.r.seconds
+			d.record(o, s.r)
+			o.Clause += fmt.Sprintf(" [case %s]", s.tag)
+			o.Seconds = total
+			return
+		}
+	}
 	for _, s := range results {
 		total += s.r.seconds
 		if s.r.status != "unsat" {
